@@ -17,7 +17,7 @@
                        unreachable, a node is selected again and the second attempt succeeds / fails with an ordinary error)
      Get2(k)           two concurrent GetOrCreate for k with a slow dial
      Write(e) / WriteErr(e) / ReadErr(e) / Reply(e)      traffic and hard errors on a handed-out endpoint
-     Track(e, t)       the endpoint registers kernel flow entry t
+     Track(e, t)       the endpoint registers kernel flow entry t (TrackLate: after the endpoint was closed - nothing is kept)
      Invalidate        the dialer's health changed (generation bump)
      Tick(d)           time passes; the janitor removes what expired
      Reset             pool reset (reload / close)
@@ -118,6 +118,10 @@ Track(i, t) == /\ Live(i) /\ ~ep[i].dead /\ t \notin ep[i].tuples
                /\ ep' = [ep EXCEPT ![i].tuples = @ \cup {t}]
                /\ retain' = [retain EXCEPT ![ep[i].owner][t] = @ + 1]
                /\ UNCHANGED <<now, pool, nep, epoch, dials>> /\ Log("track", "", i, t, "ok")
+\* a packet handler that obtained endpoint i just before it was closed (retired, invalidated, expired, reset) registers a kernel
+\* entry afterwards: nothing may be retained on behalf of an endpoint that is gone - nobody would ever release it
+TrackLate(i, t) == /\ ep[i].st = "live" /\ ep[i].closed > 0
+                   /\ UNCHANGED <<now, pool, ep, nep, epoch, dials, retain>> /\ Log("track", "", i, t, "late")
 \* a reload hand-over (adoption by owner o through GetOrCreate) racing with the endpoint being closed and removed: in
 \* whichever order the two take effect, the endpoint ends closed once and nobody holds its kernel entries any more
 AdoptClose(i, o) ==
@@ -162,7 +166,7 @@ Next == /\ Len(hist) < MaxEvents
         /\ \/ \E k \in Keys, o \in Owners, d \in {"ok", "fail", "unreach-ok", "unreach-fail"} : Get(k, o, d)
            \/ \E k \in Keys : Get2(k)
            \/ \E i \in 1..MaxEp : Write(i) \/ Reply(i) \/ HardErr(i, "writeerr") \/ HardErr(i, "readerr")
-           \/ \E i \in 1..MaxEp, t \in Tuples : Track(i, t)
+           \/ \E i \in 1..MaxEp, t \in Tuples : Track(i, t) \/ TrackLate(i, t)
            \/ \E i \in 1..MaxEp, o \in Owners : AdoptClose(i, o)
            \/ Invalidate \/ Reset
            \/ \E d \in {1, FailT, NatT, NatT + 10} : Tick(d)        \* FailT / NatT: to the very instant an entry expires
